@@ -76,4 +76,4 @@ finally:
     shutil.rmtree(wt, ignore_errors=True)
     shutil.rmtree(priv, ignore_errors=True)
     json.dump(res, open(os.path.join(sd, "result.json"), "w"), indent=1)
-print("caught" if res.get("caught") else "MISSED", sd)
+print("caught" if res.get("caught") else ("OBSOLETE-demo-passes" if str(res.get("demo_changed_rc")) == "0" else "MISSED"), sd)
